@@ -527,8 +527,9 @@ def run(ctx, ck):
         moves_ = any((isinstance(x_, ast.Attribute) and isinstance(x_.ctx, ast.Store) and x_.attr in ('p1', 'p2') and norm(x_.value) == 'self')
                      or (isinstance(x_, ast.Subscript) and isinstance(x_.ctx, ast.Store) and norm(x_.value) in ('self.p1', 'self.p2'))
                      for h_ in cl_ for x_ in walk_no_nested(h_.node))
-        if not moves_ or g_.name in ('rotate', 'translate'):
-            continue        # (rigid motions keep the length)
+        if not moves_ or not (g_.name in ('__init__', 'compute_ground') or 'scale' in g_.name):
+            continue        # (the constructor, scaling and the snap to the ground plane can make a wire degenerate;
+            #                  rigid motions and whatever else moves both ends alike keep the length)
         n_rv += 1
         ok_ = any(h_.qual in V_ for h_ in cl_)
         ck.ob('R-VALID.revalidate', g_.qual, ok_, g_.loc(),
